@@ -1,10 +1,11 @@
 (* Props/C07.v — compressed storage is lossless and its page index stays well-formed.
    Statements only; each is closed by `exact` of a lemma of Vec/CvInv.v / Vec/CvInstProofs.v.
-   All theorems are about the branch-for-branch model Vec/CvModel.v of ReadWriteCompressedVec
-   (as repaired by /repo commit "fix: a reset compressed vector is emptied on disk by the next
-   write"), for every element type/width, every compressor satisfying the round-trip hypothesis
-   and every list of compressed-size hints.  Panic is reachable only through the 1 TiB limit of a
-   rawdb region; histories are followed while no step panicked (`no_panic`). *)
+   All theorems are about the branch-for-branch model Vec/CvModel.v of ReadWriteCompressedVec (as of the
+   current /repo, including the repaired early return of write()), for every element type/width, every
+   compressor satisfying the round-trip hypothesis and every list of compressed-size hints.  Panic is
+   reachable only through the 1 TiB limit of a rawdb region; histories are followed while no step
+   panicked (`no_panic`).  `op_ok` = every operation but the rollbacks (those are Props/C04comp.v); a
+   StampedWrite is stamped_write_with_changes at ANY retention (the record is written, see C04comp). *)
 From Anydb Require Import Common.Base Common.LE Gen.Consts Gen.Sizes Codec.Vecdb
   Vec.CvRegion Vec.CvPages Vec.CvModel Vec.CvInv Vec.CvInst Vec.CvInstProofs.
 
@@ -59,24 +60,30 @@ Theorem C07_pages_inv_reading :
 Proof. exact Inv_PagesInv. Qed.
 Print Assumptions C07_pages_inv_reading.
 
-(* lossless: the values held by the pages (ghost `view`: decoded page contents up to stored_len,
-   then the pushed buffer) are exactly the reference vector's, after every history.
-   PARTIAL: the last link `cv_collect s = Ok (view s mem)` (transcription of read_into_at's page
-   loop, CvModel.read_pages) is not proved; it is covered differentially (collect digest after
-   every step).  Full statement: *)
-Definition C07_lossless_full : Prop :=
-  forall T size enc dec compress decompress fmt vver,
-  0 < size -> size <= MAX_UNCOMPRESSED_PAGE_SIZE ->
-  (forall t : T, len (enc t) = size) -> (forall t, dec (enc t) = t) ->
-  (forall k l, decompress (compress k l) (len l) = Some l) ->
-  (forall k l, len l <= MAX_UNCOMPRESSED_PAGE_SIZE / size -> len (compress k l) < two32) ->
-  format_code_ok fmt = true -> vver < two32 ->
-  forall h s0, cv_import T size fmt vver [] [] = Ok s0 -> Forall (op_ok T) h ->
-  no_panic T size enc dec compress decompress fmt vver s0 h ->
-  cv_collect T size dec decompress (cv_run T size enc dec compress decompress fmt vver s0 h)
-  = Ok (a_cur T (spec_run T (spec_init T) h)).
+(* LOSSLESS, full strength: after every history, what collect() = read_into_at(0, len) RETURNS is exactly the reference contents (bit patterns).  Other read entry points (fold/iterators, read-only clones, cursor) are C08's agreement theorem *)
+Theorem C07_lossless :
+  forall (T : Type) (size : N) (enc : T -> list N) (dec : list N -> T)
+         (compress : N -> list T -> list cell) (decompress : list cell -> N -> option (list T))
+         (fmt vver : N),
+       0 < size ->
+       size <= MAX_UNCOMPRESSED_PAGE_SIZE ->
+       (forall t : T, len (enc t) = size) ->
+       (forall t : T, dec (enc t) = t) ->
+       (forall (k : N) (l : list T), decompress (compress k l) (len l) = Some l) ->
+       (forall (k : N) (l : list T), len l <= MAX_UNCOMPRESSED_PAGE_SIZE / size -> len (compress k l) < two32) ->
+       format_code_ok fmt = true ->
+       vver < two32 ->
+       forall (h : list (op T)) (s0 : cvs T),
+       cv_import T size fmt vver [] [] = Ok s0 ->
+       Forall (op_ok T) h ->
+       no_panic T size enc dec compress decompress fmt vver s0 h ->
+       cv_collect T size dec decompress (cv_run T size enc dec compress decompress fmt vver s0 h) =
+       Ok (a_cur T (spec_run T (spec_init T) h)).
+Proof. exact lossless. Qed.
+Print Assumptions C07_lossless.
 
-Theorem C07_lossless_partial :
+(* the read path on any well-formed state: cv_collect transcribes read_into_at + read_stored_pages_into *)
+Theorem C07_read_returns_view :
   forall (T : Type) (size : N) (enc : T -> list N) (dec : list N -> T)
          (compress : N -> list T -> list cell) (decompress : list cell -> N -> option (list T))
          (fmt vver : N),
@@ -87,14 +94,11 @@ Theorem C07_lossless_partial :
        (forall (k : N) (l : list T), decompress (compress k l) (len l) = Some l) ->
        (forall (k : N) (l : list T), len l <= MAX_UNCOMPRESSED_PAGE_SIZE / size -> len (compress k l) < two32) ->
        vver < two32 ->
-       forall (h : list (op T)) (s : cvs T) (a : spec T),
-       R T size enc compress fmt vver s a ->
-       Forall (op_ok T) h ->
-       no_panic T size enc dec compress decompress fmt vver s h ->
-       R T size enc compress fmt vver (cv_run T size enc dec compress decompress fmt vver s h)
-         (spec_run T a h) /\ steps_ok T size enc dec compress decompress fmt vver s h.
-Proof. exact run_R. Qed.
-Print Assumptions C07_lossless_partial.
+       forall (s : cvs T) (hd : header) (ents mem : list (ent T)),
+       InvG T size enc compress fmt vver s hd ents mem ->
+       cv_collect T size dec decompress s = Ok (view T s mem).
+Proof. exact collect_view. Qed.
+Print Assumptions C07_read_returns_view.
 
 (* every well-formed entry decodes to its values (the codec hypothesis enters here) *)
 Theorem C07_page_decodes :
